@@ -25,6 +25,8 @@ def run(ctx):
     ctx.guard(nav, ctx)
     from . import linkedset
     ctx.guard(linkedset.check, ctx, 'C09-SETS')
+    from . import c10 as _c10
+    ctx.shared(_c10.access, ctx)            # where-clauses and navigation read attributes through Class.__getattr__
     ctx.assume('equality of a result with the relational evaluation of a concrete model state is a runtime quantity and is not decided')
     ctx.assume('OrderedSet behaves as an insertion-ordered set (C17, not claimed)')
     return ('Abstract tables of apply_query_operators (operator kind -> stage) and WhereEqual (per-component match flags -> yield); '
